@@ -464,8 +464,50 @@ def _scalar_cot(coef):
     return alg.Vec({alg.base_atom("unit1"): coef})
 
 
+def unit_inner_entry():
+    """_mcquad (the entry used by backward): the samples and weights it is given reach the autograd function, for single
+    and tuple-valued integrands; the public mcquad passes none (the sampler runs)"""
+    mc, mq = _mods()
+
+    def run():
+        c = ctx()
+        d = fresh_int("d")
+        ns = fresh_int("ns")
+        c.assume(z3.And(d.e >= 1, ns.e >= 1))
+        xs, ws = st.vec("xs", (ns, d), (1,)), st.scalar("w", (ns,))
+        x0 = st.vec("x0", (d,), (0,))
+        p = st.vec("p", (2,), (0,), requires_grad=True)
+        for tuple_out in (False, True):
+            seen = []
+
+            class Fn(object):
+                @staticmethod
+                def apply(*a):
+                    seen.append(a)
+                    return st.vec("res", (3,), (0,))
+
+            def ffcn(x, p_):
+                o = absfun("f", [x, p_], 3)[0]
+                return (o, o) if tuple_out else o
+
+            def logp(x, p_):
+                return absfun("logp", [x, p_], 1)[0].reshape(())
+            tag = "_mcquad[%s]" % ("tuple output" if tuple_out else "single output")
+            with kit.patched(mq, "_MCQuad", Fn), kit.patched(mq, "TensorPacker", lambda out: type("P", (), {"flatten": staticmethod(lambda y: y[0]), "pack": staticmethod(lambda r: (r, r))})()):
+                ok, _ = kit.call_or_fail(c, tag + ":does_not_raise", lambda: mq._mcquad(ffcn, logp, x0, xs, ws, (p,), (p,), "mh", {"k": 1}, nsamples=7))
+                if ok:
+                    c.check(tag + ":given_samples_and_weights_reach_the_autograd_function", len(seen) == 1 and seen[0][2] is x0 and seen[0][3] is xs and seen[0][4] is ws,
+                            detail="samples argument: %r" % (seen[0][3] if seen else None,))
+                    c.check(tag + ":method_and_options_reach_the_autograd_function", len(seen) == 1 and seen[0][5] == "mh" and seen[0][6] == {"nsamples": 7} and seen[0][7] == {"k": 1})
+                del seen[:]
+                ok, _ = kit.call_or_fail(c, tag + ":public_entry_does_not_raise", lambda: mq.mcquad(ffcn, logp, x0, fparams=(p,), pparams=(p,), method="mh", nsamples=7))
+                if ok:
+                    c.check(tag + ":public_entry_passes_no_samples", len(seen) == 1 and seen[0][3] is None and seen[0][4] is None)
+    return kit.run_unit("inner_entry", run)
+
+
 def units(tier):
-    us = [("mhcustom_sample[collect=True]", lambda: unit_mhcustom_sample(True)),
+    us = [("inner_entry", unit_inner_entry), ("mhcustom_sample[collect=True]", lambda: unit_mhcustom_sample(True)),
           ("mhcustom_sample[collect=False]", lambda: unit_mhcustom_sample(False)),
           ("sampler_tops", unit_sampler_tops), ("mh_sample", unit_mh_sample), ("integrate", unit_integrate), ("dummy1d", unit_dummy1d)]
     for fp, pp in (("T", "T"), ("TX", "T"), ("T", ""), ("", "T"), ("TU", "T"), ("T", "UT"), ("XT", "TX"), ("U", "T"), ("T", "U")):
